@@ -1,6 +1,8 @@
 import io
 from typing import BinaryIO, Iterable, Optional, Union
 
+import numpy as np
+
 from ._pointappender import IPointAppender
 from .compression import LazBackend
 from .errors import LaspyException
@@ -80,6 +82,13 @@ class LasAppender:
 
         if not points:
             return
+
+        if self.header.point_count == 0:
+            # The mins and maxs of an empty file are zeros,
+            # they must not take part in the min/max of the appended points
+            f64info = np.finfo(np.float64)
+            self.header.maxs = np.ones(3, dtype=np.float64) * f64info.min
+            self.header.mins = np.ones(3, dtype=np.float64) * f64info.max
 
         self.points_appender.append_points(points)
         self.header.grow(points)
